@@ -1,5 +1,5 @@
 \* the model as the unrepaired code behaves: used to GENERATE behaviours (no invariant)
-CONSTANTS MaxBlocks = 3  MaxTx = 2  MaxOff = 2  QueryCtxNotPrev = TRUE  SimulateRunsMsgOnRoot = TRUE
+CONSTANTS MaxBlocks = 3  MaxTx = 2  MaxOff = 2  QueryCtxNotPrev = TRUE  SimulateRunsMsgOnRoot = TRUE  OffChainMayTrustSig = TRUE
 INIT Init
 NEXT NextCover
 VIEW view
